@@ -147,9 +147,12 @@ func checkC10(c *Ctx) {
 	filterSpec := func() *Spec {
 		sp := c.handlerSpec("ParseIP", "IPFilter.", "IsAllowed")
 		sp.Expand = func(callee *ssa.Function, site ssa.CallInstruction) bool {
-			// the filter's own methods (IsAllowed may delegate to helpers)
-			rc := callee.Signature.Recv()
-			return rc != nil && QualType(namedOf(rc.Type())) == "adminapi.IPFilter"
+			// the filter's own methods and the package's small helpers (IsAllowed may delegate to them)
+			if rc := callee.Signature.Recv(); rc != nil {
+				return QualType(namedOf(rc.Type())) == "adminapi.IPFilter"
+			}
+			pk := fnPkg(callee)
+			return pk != nil && strings.HasSuffix(pk.Pkg.Path(), "/internal/adminapi") && callee.Parent() == nil && callee.Name() != "parseCIDR" && callee.Name() != "NewIPFilter" && callee.Name() != "NewMux"
 		}
 		return sp
 	}
@@ -157,9 +160,14 @@ func checkC10(c *Ctx) {
 	decision := func(t *Trace, allowed bool) string {
 		parsed, denyHit, allowHit, allowEmpty := false, false, false, false
 		lastDenyTest, firstAllowDecision := -1, -1
+		denySeen := false // the deny list was at least ranged over (its loop bound or an entry was tested)
 		for i, it := range t.Items {
-			if _, isIf := it.Instr.(*ssa.If); !isIf {
+			ifi, isIf := it.Instr.(*ssa.If)
+			if !isIf {
 				continue
+			}
+			if strings.Contains(c.P.Desc(ifi.Cond, it.Frame), "IPFilter.denyList") && (firstAllowDecision < 0) {
+				denySeen = true
 			}
 			r := c.condRel(it)
 			switch {
@@ -201,6 +209,9 @@ func checkC10(c *Ctx) {
 			if lastDenyTest > firstAllowDecision && firstAllowDecision >= 0 {
 				return "allow decision taken before the deny list was consulted"
 			}
+			if !denySeen {
+				return "an address can be allowed without the deny list having been scanned"
+			}
 		}
 		return ""
 	}
@@ -212,33 +223,6 @@ func checkC10(c *Ctx) {
 			}
 			return decision(t, t.Ret[0].K == ATrue)
 		})
-	// deny list is consulted before allowing: the deny loop dominates every `return true`
-	if ia != nil {
-		var denyLoop *ssa.BasicBlock
-		holder := ia
-		for _, fn := range p.Funcs {
-			if pk := fnPkg(fn); pk == nil || !strings.HasSuffix(pk.Pkg.Path(), "/internal/adminapi") {
-				continue
-			}
-			instrsOf(fn, func(in ssa.Instruction) {
-				if ci, ok := in.(ssa.CallInstruction); ok && CalleeName(ci) == "(*net.IPNet).Contains" && strings.Contains(p.Desc(ci.Common().Args[0], nil), "denyList") {
-					denyLoop = loopHeader(in.Block())
-					holder = fn
-				}
-			})
-		}
-		ok := denyLoop != nil
-		instrsOf(holder, func(in ssa.Instruction) {
-			if r, isRet := in.(*ssa.Return); isRet && denyLoop != nil {
-				if b, isB := constBool(r.Results[0]); isB && b && !denyLoop.Dominates(r.Block()) {
-					ok = false
-				}
-			}
-		})
-		c.Check(ok, "filter-decision", "adminapi.(*IPFilter).IsAllowed/deny-first", p.Pos(ia.Pos()),
-			"every `return true` is dominated by the deny-list loop", "an address can be allowed without the deny list having been scanned")
-	}
-
 	// 3b. every configured entry becomes a rule or an error: nothing is skipped silently
 	nf := p.Fn("internal/adminapi", "", "NewIPFilter")
 	spF := &Spec{
